@@ -33,8 +33,14 @@ struct Leaf {
 struct Pools {
     c: Vec<Leaf>,
     n: Vec<Leaf>,
+    /// synthetic leaves (no bytes behind them) whose FIRST 64-bit word is shared: s[cut][4 * group + j];
+    /// groups: word 0, word 7, the first word of n[0], the first word of c[0]
+    s: [Vec<Leaf>; 2],
     candidates_tried: u64,
 }
+
+/// Entry indices from here on select a synthetic leaf.
+const SYN_BASE: usize = 1 << 20;
 
 const POOL: usize = 8192;
 
@@ -51,7 +57,7 @@ fn candidate(s: u64) -> Vec<u8> {
 }
 
 fn build_pools(out: &mut Partial) -> Pools {
-    let mut p = Pools { c: vec![], n: vec![], candidates_tried: 0 };
+    let mut p = Pools { c: vec![], n: vec![], s: [vec![], vec![]], candidates_tried: 0 };
     let mut seen = std::collections::BTreeSet::new();
     let mut s = 0u64;
     while p.c.len() < POOL || p.n.len() < POOL {
@@ -75,6 +81,21 @@ fn build_pools(out: &mut Partial) -> Pools {
             pool.push(Leaf { data, rh, mh });
         }
     }
+    let first_word = |l: &Leaf| u64::from_le_bytes(l.rh[..8].try_into().unwrap());
+    let groups = [0u64, 7, first_word(&p.n[0]), first_word(&p.c[0])];
+    for cut in 0..2usize {
+        for (gi, w0) in groups.iter().enumerate() {
+            for j in 0..4u64 {
+                let last = 8 * (gi as u64 * 4 + j + 1) + if cut == 1 { 0 } else { 1 + j % 3 };
+                let w = [*w0, 0x1000 + j, 0x5555_0000 + gi as u64, last];
+                let mut rh = [0u8; 32];
+                for i in 0..4 {
+                    rh[i * 8..i * 8 + 8].copy_from_slice(&w[i].to_le_bytes());
+                }
+                p.s[cut].push(Leaf { data: vec![], rh, mh: MerkleHash::from(rh) });
+            }
+        }
+    }
     p
 }
 
@@ -88,6 +109,10 @@ struct Entry {
 
 impl Entry {
     fn leaf<'a>(&self, p: &'a Pools) -> &'a Leaf {
+        if self.idx >= SYN_BASE {
+            let pool = &p.s[self.cut as usize];
+            return &pool[(self.idx - SYN_BASE) % pool.len()];
+        }
         let pool = if self.cut { &p.c } else { &p.n };
         &pool[self.idx % pool.len()]
     }
@@ -721,6 +746,53 @@ fn jobs(tier: Tier) -> Vec<(u64, Job)> {
             ));
         }
     }
+    // D. lists over leaves that share their first 64-bit word (with each other, with the all-zero hash, with a
+    //    real chunk hash): every list of up to 4 (quick) / 5 (thorough) entries over an alphabet of 9
+    {
+        let alphabet: Vec<Entry> = vec![
+            Entry { cut: false, idx: SYN_BASE, len: Some(11) },      // word 0, a
+            Entry { cut: false, idx: SYN_BASE + 1, len: Some(12) },  // word 0, b
+            Entry { cut: true, idx: SYN_BASE + 2, len: Some(13) },   // word 0, c (may close a group)
+            Entry { cut: false, idx: SYN_BASE + 4, len: Some(14) },  // word 7, a
+            Entry { cut: true, idx: SYN_BASE + 5, len: Some(15) },   // word 7, b (may close a group)
+            Entry { cut: false, idx: SYN_BASE + 8, len: Some(16) },  // first word of the real leaf n[0]
+            Entry { cut: false, idx: 0, len: None },                 // the real leaf n[0]
+            Entry { cut: true, idx: SYN_BASE + 12, len: Some(17) },  // first word of the real leaf c[0]
+            Entry { cut: true, idx: 0, len: None },                  // the real leaf c[0]
+        ];
+        let lmax = tier.pick(4usize, 5usize);
+        for first in 0..alphabet.len() {
+            let alphabet = alphabet.clone();
+            js.push((
+                20_000,
+                Box::new(move |p| {
+                    let mut out = Partial::default();
+                    let a = alphabet.len();
+                    for n in 1..=lmax {
+                        for x in 0..a.pow(n as u32 - 1) {
+                            let mut y = x;
+                            let mut l = vec![alphabet[first]];
+                            for _ in 1..n {
+                                l.push(alphabet[y % a]);
+                                y /= a;
+                            }
+                            let o = ListOpts { xorb: false, all_ranges: true, family: "shared-first-word" };
+                            check_list(&mut out, p, &l, &o);
+                            let fw = |e: &Entry| e.leaf(p).rh[..8].to_vec();
+                            if (0..l.len()).any(|i| (0..i).any(|k| l[i].leaf(p).rh != l[k].leaf(p).rh && fw(&l[i]) == fw(&l[k]))) {
+                                out.count("vac:lists_with_two_hashes_sharing_the_first_word", 1);
+                            }
+                            if n >= 2 {
+                                out.distinct(fingerprint(p, &l));
+                            }
+                            check_edits(&mut out, p, &l, None, "shared-first-word");
+                        }
+                    }
+                    out
+                }),
+            ));
+        }
+    }
     // C. structured long lists
     let mut ns: Vec<usize> = (1..=64).collect();
     ns.extend([100, 1000, 8192]);
@@ -1014,7 +1086,7 @@ fn main() {
     run.all = all;
     run.finish(
         evaluations,
-        "real chunk bytes are searched (fixed LCG candidates) into two pools of 8192 leaves by class 'last 64-bit word of the chunk hash is 0 mod 4' / 'not'. Lists: EVERY class pattern of length 0..14 (2^15-1 lists; thorough: 0..16, 2^17-1 lists; real bytes: xorb built with CasObject::serialize under two compression settings, uploader hash, seekable + streaming validators incl. footer-less stream and two wrong-hash variants, every sub-range hash up to length 8); all 364 lists of length <=5 over 3 (hash,length) pairs x 8 class assignments x 3 assignments of the lengths {0,1,2^32-1}; structured lists (distinct mix, all zero-mod-4, none, one hash repeated, two alternating, period 3) for n in 1..64,100,1000,8192 (real xorbs); each compared with the reference for xorb hash, file hash under salts {0,1,pattern}, range hash. Every single edit (change to same/other class, drop, swap adjacent, insert of either class, insert a repeat; at every position, for n>64 at 25 positions) of patterns up to length 10 (quick) / 14 (thorough), of all three-pair lists and of the structured lists must change xorb, file and range hash, and every edited list is itself compared with the reference. 5^4 structured 256-bit values: layout, hex, base64 against hand-written encoders, round trips, hmac/with_salt under 3 keys; 600+ malformed hex / base64 texts must be rejected without panic. HashedWrite against the one-shot hash for 2 strings of each length 0..12 under ALL partitions (2^11 for 12 bytes; a quarter also with empty writes in every slot) and for lengths 63,64,65,1023,1024,1025,4097 under every 2-partition, and every sequence of <= 3 writes with sizes from {1,7,4095,4096,4097,8191,8192,16383,16384,16385,65535,65536,65537} (buffering thresholds). An evaluation is one comparison of a function of the code under test with the reference (or of two aggregates for an edit); distinct non-trivial cases are the distinct base lists with >= 2 entries (edits not counted), the 625 values and the byte strings",
+        "real chunk bytes are searched (fixed LCG candidates) into two pools of 8192 leaves by class 'last 64-bit word of the chunk hash is 0 mod 4' / 'not'. Lists: EVERY class pattern of length 0..14 (2^15-1 lists; thorough: 0..16, 2^17-1 lists; real bytes: xorb built with CasObject::serialize under two compression settings, uploader hash, seekable + streaming validators incl. footer-less stream and two wrong-hash variants, every sub-range hash up to length 8); all 364 lists of length <=5 over 3 (hash,length) pairs x 8 class assignments x 3 assignments of the lengths {0,1,2^32-1}; every list of <= 4 (thorough: 5) entries over 9 leaves that share their first 64-bit word with each other, with the all-zero hash or with a real chunk hash (synthetic 256-bit values; family shared-first-word); structured lists (distinct mix, all zero-mod-4, none, one hash repeated, two alternating, period 3) for n in 1..64,100,1000,8192 (real xorbs); each compared with the reference for xorb hash, file hash under salts {0,1,pattern}, range hash. Every single edit (change to same/other class, drop, swap adjacent, insert of either class, insert a repeat; at every position, for n>64 at 25 positions) of patterns up to length 10 (quick) / 14 (thorough), of all three-pair lists and of the structured lists must change xorb, file and range hash, and every edited list is itself compared with the reference. 5^4 structured 256-bit values: layout, hex, base64 against hand-written encoders, round trips, hmac/with_salt under 3 keys; 600+ malformed hex / base64 texts must be rejected without panic. HashedWrite against the one-shot hash for 2 strings of each length 0..12 under ALL partitions (2^11 for 12 bytes; a quarter also with empty writes in every slot) and for lengths 63,64,65,1023,1024,1025,4097 under every 2-partition, and every sequence of <= 3 writes with sizes from {1,7,4095,4096,4097,8191,8192,16383,16384,16385,65535,65536,65537} (buffering thresholds). An evaluation is one comparison of a function of the code under test with the reference (or of two aggregates for an edit); distinct non-trivial cases are the distinct base lists with >= 2 entries (edits not counted), the 625 values and the byte strings",
         true,
     );
 }
